@@ -413,15 +413,24 @@ def explore(ctx, runner, ok):
     ctx.sample({"ops": seqs[1][:10]})
     evals = 0
     distinct = set()
-    with ThreadPoolExecutor(12) as ex:
-        for ops, res in zip(seqs, ex.map(runner.case, seqs, chunksize=16)):
-            evals += 1
-            distinct.add(tuple(ops))
-            if res is not None:
-                small = shrink_list(ops, lambda sub: runner.case(sub) is not None)
+    ex = ThreadPoolExecutor(12)
+    try:
+        # submitted in slices so that a failure does not leave tens of thousands of queued cases behind
+        for lo in range(0, len(seqs), 2000):
+            part = seqs[lo:lo + 2000]
+            failed = None
+            for ops, res in zip(part, ex.map(runner.case, part)):
+                evals += 1
+                distinct.add(tuple(ops))
+                if res is not None and failed is None:
+                    failed = ops
+            if failed is not None:
+                small = shrink_list(failed, lambda sub: runner.case(sub) is not None)
                 res = runner.case(small)
                 ctx.violation(f"C API / C++ / Fortran / model disagree: {res}", {"ops": small, "result": res})
                 break
+    finally:
+        ex.shutdown(wait=True, cancel_futures=True)
     ncell, bad, ops = run_scenario(ctx, runner)
     if bad:
         ctx.violation(f"bindings disagree on an accessor (or differ from the documented invalid-instance result): {bad}",
